@@ -94,10 +94,18 @@ func (i Info) Hash(h hash.Hash) string {
 // AppendHash is like Hash except that it appends the output string to the
 // provided byte slice.
 func (i Info) AppendHash(dst []byte, h hash.Hash) []byte {
+	// The slices of the receiver share their backing arrays with the caller's
+	// value: sort copies so that hashing neither reorders the caller's info nor
+	// races with another goroutine hashing the same value.
+	identities := make([]info.Identity, len(i.Identity))
+	copy(identities, i.Identity)
+	features := make([]info.Feature, len(i.Features))
+	copy(features, i.Features)
+
 	// Hash identities
 	// TODO: does this match RFC 4790 § 9.3?
-	sort.Slice(i.Identity, func(a, b int) bool {
-		identI, identJ := i.Identity[a], i.Identity[b]
+	sort.Slice(identities, func(a, b int) bool {
+		identI, identJ := identities[a], identities[b]
 		if identI.Category != identJ.Category {
 			return identI.Category < identJ.Category
 		}
@@ -109,16 +117,16 @@ func (i Info) AppendHash(dst []byte, h hash.Hash) []byte {
 		}
 		return false
 	})
-	for _, ident := range i.Identity {
+	for _, ident := range identities {
 		/* #nosec */
 		fmt.Fprintf(h, "%s/%s/%s/%s<", ident.Category, ident.Type, ident.Lang, ident.Name)
 	}
 
 	// Hash features
-	sort.Slice(i.Features, func(a, b int) bool {
-		return i.Features[a].Var < i.Features[b].Var
+	sort.Slice(features, func(a, b int) bool {
+		return features[a].Var < features[b].Var
 	})
-	for _, f := range i.Features {
+	for _, f := range features {
 		/* #nosec */
 		io.WriteString(h, f.Var)
 		/* #nosec */
